@@ -162,6 +162,9 @@ func suiteHist(seed uint64, n int, work, prof string) {
 	case "mergecrash":
 		suiteMergeCrash(seed, n, work)
 		return
+	case "mergefault":
+		suiteMergeFault(seed, n, work)
+		return
 	case "conc":
 		suiteConc(seed, n, work, false)
 		return
